@@ -733,6 +733,11 @@ def do_freeze(model, x, state, quantize, labels):
     sig["step"] = "freeze"
     sig["masked_conv"] = any(getattr(l, "_mask", None) is not None
                              for l in model.layers)
+    fused_bns = set(fusable_pairs(model)[0].values())
+    sig["unfused_bn_inverse_auto_po2"] = any(
+        l.__class__.__name__ == "QBatchNormalization" and l.name not in fused_bns
+        and getattr(l.inverse_quantizer_internal, "alpha", None) == "auto_po2"
+        for l in model.layers)
     return [("freeze_raises", sig, repr(e)[:500])], model
   labels.add("freeze")
   # the source model is not modified
